@@ -195,10 +195,13 @@ inductive Act where
   loading): `o.db` is assigned only after `dkv.Open` returned, so the operator keeps serving — and answering
   `NeedsTable` from — the instance it had -/
   | redeployFailed (i : Nat)
-  /-- D63: an instance that was dropped inside a living process (`release`: `DB.Close` is a no-op and is not even
-  called) still has a flush or compaction in flight; the task finishes later and saves a table file under the name
-  its own numbering reserved — a name the instance reopened in the same directory may have used meanwhile. The file
-  that had this name is overwritten: its content is gone (an overwrite is a deletion). -/
+  /-- D63, the OLD rule (before the repair f9820ca): an instance dropped inside a living process (`release`) still has
+  a flush or compaction in flight; the task finishes later and saves a table file under the name its own numbering
+  reserved — a name the instance reopened in the same directory may have used meanwhile. The file that had this name
+  is overwritten: its content is gone (an overwrite is a deletion). The code now closes the previous database —
+  `DB.Close` waits for every background task the instance enqueued — before `HandleDeploy` reopens the directory
+  (`quiesced`: facts `c09DeployClosesFirst`, `c09CloseWaits`), so this action is not a behaviour of the code any
+  more; it is kept for the regression witness and is outside every theorem scope. -/
   | lateWrite (i : Nat) (t : Tbl)
 deriving Repr
 
@@ -265,6 +268,10 @@ def saveDoc (s : State) (i dir : Nat) : List Nat :=
 
 /-- the file a late background write leaves under the name `u`: same name, other content -/
 def lateName (u : Path) : Path := u ++ "'"
+
+/-- the code's rule that rules `lateWrite` out: the previous instance of a directory is closed, its background
+tasks waited for, before the directory is reopened (read from the source on every run) -/
+def quiesced : Bool := Facts.c09DeployClosesFirst == 1 && Facts.c09CloseWaits == 1
 
 def step (s : State) : Act → Option State
   | .openFresh range gen nbrs dir =>
@@ -439,9 +446,9 @@ def aliveAt (s : State) (i : Nat) : Bool :=
 /-- * an instance is opened only when no other is running — empty when the job has no checkpoint, otherwise from ONE
   checkpoint handle the job still retains;
 * every instance gets a storage directory of its own (directory number = instance number);
-* no instance is released inside a living process (D25) — in particular the previous instance of a directory is
-  quiesced before the directory is reopened: no background write of it lands later (D63) —, and a dead process runs
-  no cleanups;
+* no instance is released inside a living process (D25), and a dead process runs no cleanups; that no background
+  write of a previous instance lands after its directory was reopened (`lateWrite`, D63) is a rule of the code
+  (`quiesced`), not an assumption;
 * the job asks an operator to drop only checkpoints it has dropped (oldest first: `jobDrop`). -/
 def inScopeL (s : State) : Act → Bool
   | .openFresh _ _ _ dir => noneAlive s && s.retained.isEmpty && dir == s.insts.length
